@@ -37,7 +37,8 @@ def floors(tier):
     return {"const_checked": 20000, "enum_checked": 40000, "unique_checked": 40000, "pairs_equal": 3000,
             "pairs_unequal": 4000, "depth0": 500, "depth1": 500, "depth2": 500, "depth3": 500,
             "arrays_all_scalar": 500, "arrays_sortable_containers": 500, "arrays_unsortable": 500,
-            "uniq_regions_hit": 1, "container_class_variants": 5000, "nested_placements": 10000, "aliased_subvalues": 5000}
+            "uniq_regions_hit": 1, "container_class_variants": 5000, "nested_placements": 10000, "aliased_subvalues": 5000,
+            "deep_pairs": 3000, "deep_pairs_decided": 800, "deep_pairs_ended_by_recursion_limit": 300}
 
 
 NFC = unicodedata.normalize("NFC", "é")
@@ -225,9 +226,85 @@ def unique_arrays(ctx, rng, n):
             one(ctx, d, impl.CLS[d], {"uniqueItems": True}, elems, want, "unique")
 
 
+def _deep(bottom, depth, shape):
+    v = bottom
+    for k in range(depth):
+        if shape == "list" or (shape == "mixed" and k % 2):
+            v = [v]
+        else:
+            v = {"k": v}
+    return v
+
+
+DEEP_BOTTOMS = [(True, 1, False), (0, False, False), (1, 1.0, True), (True, True, True), ("a", "a", True), (None, 0, False), ([], {}, False),
+                ([0], [False], False), ({"a": 1}, {"a": True}, False), (0, -0.0, True), ([1, "x"], [1.0, "x"], True)]
+DEEP_DEPTHS = [60, 150, 250, 320, 400, 600, 900, 960, 1000, 1050, 1100, 1200, 1300, 1400, 3000]
+UNDER_LEVELS = list(range(180, 345, 5))      # schema levels above a 40-deep value: the comparison starts with little stack left
+
+
+def deep_one(ctx, d, kw, depth, shape, bottoms):
+    """A value nested `depth` levels deep against one that differs only at the bottom: the verdict is the JSON one, or the
+    interpreter's recursion limit ends the comparison with RecursionError (counted, not a verdict) - never the other verdict."""
+    a, b, eq = bottoms
+    A, B = _deep(a, depth, shape), _deep(b, depth, shape)
+    if kw == "const":
+        schema, inst, exp = {"const": A}, B, eq
+    elif kw == "enum":
+        schema, inst, exp = {"enum": [_deep("other", depth, shape), A]}, B, eq
+    elif kw == "uniqueItems":
+        schema, inst, exp = {"uniqueItems": True}, [A, B], not eq
+    elif kw == "under-items":
+        A, B = _deep(a, 40, shape), _deep(b, 40, shape)
+        schema, inst, exp = {"enum": [A]}, B, eq
+        for _ in range(depth):
+            schema, inst = {"items": schema}, [inst]
+    else:   # the deep value sits under a shallow const/enum, below properties
+        schema, inst, exp = {"properties": {"p": {"enum": [A]}}}, {"p": B}, eq
+    case = {"draft": d, "deep": {"keyword": kw, "depth": depth, "shape": shape, "bottoms": [a, b, eq]}}
+    ctx.case(["deep", d, kw, depth, shape, repr(bottoms)])
+    ctx.count("deep_pairs")
+    import sys
+    limit = sys.getrecursionlimit()
+    sys.setrecursionlimit(1000)      # the interpreter's default, whatever the harness runs under
+    try:
+        got = impl.CLS[d](schema).is_valid(inst)
+    except RecursionError:
+        ctx.count("deep_pairs_ended_by_recursion_limit")
+        return
+    except Exception as e:
+        ctx.violation("raised", case, "%s: %s" % (type(e).__name__, str(e)[:150]))
+        return
+    finally:
+        sys.setrecursionlimit(limit)
+    ctx.count("deep_pairs_decided")
+    if got != exp:
+        ctx.violation("deep-" + kw, case, "values nested %d deep differing only at the bottom (%r / %r): implementation says %s, JSON equality says %s" % (
+            depth, a, b, "valid" if got else "invalid", "valid" if exp else "invalid"))
+
+
+def deep_pairs(ctx):
+    n = 0
+    for d in impl.DRAFTS:
+        for kw in ("const", "enum", "uniqueItems", "under-properties"):
+            if kw == "const" and d < 6:
+                continue
+            for depth in DEEP_DEPTHS:
+                for shape in ("list", "dict", "mixed"):
+                    for bottoms in DEEP_BOTTOMS:
+                        n += 1
+                        if ctx.mine(n):
+                            deep_one(ctx, d, kw, depth, shape, bottoms)
+        for levels in UNDER_LEVELS:
+            for bottoms in DEEP_BOTTOMS[:4]:
+                n += 1
+                if ctx.mine(n):
+                    deep_one(ctx, d, "under-items", levels, "list", bottoms)
+
+
 def run(ctx):
     impl.quiet()
     cov = shared_coverage()
+    deep_pairs(ctx)
     try:
         idx = 0
         rr = random.Random(2024)
@@ -277,6 +354,10 @@ def run(ctx):
 def replay(ctx, rec):
     impl.quiet()
     c = rec["case"]
+    if "deep" in c:
+        q = c["deep"]
+        deep_one(ctx, c["draft"], q["keyword"], q["depth"], q["shape"], tuple(q["bottoms"]))
+        return
     d, schema, inst = c["draft"], c["schema"], c["instance"]
     if "const" in schema:
         exp = jeq(schema["const"], inst)
